@@ -502,6 +502,67 @@ func callArg(p *pkgInfo, fnName, callee string, idx int) string {
 	return res
 }
 
+// condText: source text of the n-th if-condition (n >= 0) or, for n < 0, of the first returned
+// expression of fn
+func condText(p *pkgInfo, fnName string, n int) string {
+	fn := p.funcs[fnName]
+	if fn == nil {
+		missing = append(missing, fnName)
+		return ""
+	}
+	res, k := "", 0
+	ast.Inspect(fn.Body, func(m ast.Node) bool {
+		if res != "" {
+			return false
+		}
+		switch x := m.(type) {
+		case *ast.IfStmt:
+			if n >= 0 {
+				if k == n {
+					var sb strings.Builder
+					_ = printer.Fprint(&sb, fset, x.Cond)
+					res = sb.String()
+				}
+				k++
+			}
+		case *ast.ReturnStmt:
+			if n < 0 && len(x.Results) > 0 {
+				var sb strings.Builder
+				_ = printer.Fprint(&sb, fset, x.Results[0])
+				res = sb.String()
+			}
+		}
+		return true
+	})
+	if res == "" {
+		missing = append(missing, fnName+"#cond")
+	}
+	return res
+}
+
+// iotaBlock: the names of the const block whose first name is first, in order
+func iotaBlock(p *pkgInfo, first string) []string {
+	for _, f := range p.files {
+		for _, d := range f.Decls {
+			gd, ok := d.(*ast.GenDecl)
+			if !ok || gd.Tok != token.CONST || len(gd.Specs) == 0 {
+				continue
+			}
+			if vs := gd.Specs[0].(*ast.ValueSpec); len(vs.Names) > 0 && vs.Names[0].Name == first {
+				var out []string
+				for _, sp := range gd.Specs {
+					for _, nm := range sp.(*ast.ValueSpec).Names {
+						out = append(out, nm.Name)
+					}
+				}
+				return out
+			}
+		}
+	}
+	missing = append(missing, first)
+	return nil
+}
+
 func coqStrList(l []string) string {
 	var q []string
 	for _, x := range l {
@@ -592,6 +653,13 @@ func main() {
 		name := "skel_" + strings.ReplaceAll(fn, ".", "_")
 		fmt.Fprintf(&b, "Definition %s : list string := %s.\n", name, coqStrList(skeleton(p.funcs[fn])))
 	}
+	b.WriteString("\n(* the reverse-tunnel server's shutdown state machine *)\n")
+	fmt.Fprintf(&b, "Definition rs_states : list string := %s.\n", coqStrList(iotaBlock(p, "stateActive")))
+	fmt.Fprintf(&b, "Definition rs_guards : list (string * string) := [(\"isClosing\", \"%s\"); (\"isClosed\", \"%s\"); (\"addInstance\", \"%s\"); (\"Stop\", \"%s\"); (\"GracefulStop\", \"%s\")].\n",
+		condText(p, "ReverseTunnelServer.isClosing", -1), condText(p, "ReverseTunnelServer.isClosed", -1),
+		condText(p, "ReverseTunnelServer.addInstance", 0), condText(p, "ReverseTunnelServer.Stop", 0), condText(p, "ReverseTunnelServer.GracefulStop", 0))
+	fmt.Fprintf(&b, "Definition skel_ReverseTunnelServer_Stop : list string := %s.\n", coqStrList(skeleton(p.funcs["ReverseTunnelServer.Stop"])))
+	fmt.Fprintf(&b, "Definition skel_ReverseTunnelServer_GracefulStop : list string := %s.\n", coqStrList(skeleton(p.funcs["ReverseTunnelServer.GracefulStop"])))
 	b.WriteString("\n(* which expression sizes each flow-control window *)\n")
 	fmt.Fprintf(&b, "Definition window_args : list (string * string) := [(\"server.sender\", \"%s\"); (\"server.receiver\", \"%s\"); (\"client.sender\", \"%s\"); (\"client.receiver\", \"%s\")].\n",
 		callArg(p, "tunnelServer.createStream", "newSender", 1), callArg(p, "tunnelServer.createStream", "newReceiver", -1),
